@@ -9,6 +9,15 @@ CHECKS = {
                 "exit the reported length is 0 and every data-dependent output write is followed by a constant fill. This decides the "
                 "control/data-flow clauses of C02, not the MAC arithmetic (that a changed bit changes the tag).",
     },
+    "C03": {
+        "engine": "PathAI (E1) + call graph (E2)",
+        "technique": "must-pass-through analysis of the misuse guard + who-may-call on the unguarded entry points",
+        "text": "Static, for all (ic, length): every path of crypto_stream_chacha20_ietf_xor_ic to the backend crosses a guard whose condition "
+                "depends on both ic and mlen and whose refusing arm cannot return (sodium_misuse); the counter-0 IETF forms reach the backend "
+                "only with length <= the header MESSAGEBYTES_MAX; the unguarded extended-counter functions are called only from these and "
+                "from XChaCha20-Poly1305. This is the one clause of C03 visible in the code's shape; keystream bytes, SIMD counter carries, "
+                "offset equivalence and the arithmetic of the guard threshold are not decided.",
+    },
     "C04": {
         "engine": "PathAI (E1)",
         "technique": "interval analysis from branch facts vs header constants; checklist path analysis of MAC verification",
